@@ -123,6 +123,46 @@ pub fn run_trace_with(cfg: &TraceCfg, spec: &WorldSpec, tweak: impl FnOnce(&mut 
             return log;
         }
     };
+    run_on(tracer, log, cfg, spec, tweak, |_| {})
+}
+
+/// Run a pre-built tracer (shared with other threads) on the calling thread; `on_publish` is
+/// called after the tracer's own handler has applied the round.
+pub fn run_shared(
+    tracer: trippy_core::Tracer,
+    cfg: &TraceCfg,
+    spec: &WorldSpec,
+    on_publish: impl Fn(&trippy_core::Round<'_>),
+) -> RunLog {
+    let log = RunLog {
+        cfg: cfg.clone(),
+        spec: spec.clone(),
+        build_error: None,
+        result: None,
+        panic: None,
+        aborted: None,
+        sends: vec![],
+        events: vec![],
+        rounds: vec![],
+        snapshot: None,
+        start_ns: START_NS,
+        end_ns: START_NS,
+        injected: vec![],
+        socket_calls: 0,
+        tables: vec![],
+        captured: vec![],
+    };
+    run_on(tracer, log, cfg, spec, |_| {}, on_publish)
+}
+
+fn run_on(
+    tracer: trippy_core::Tracer,
+    mut log: RunLog,
+    cfg: &TraceCfg,
+    spec: &WorldSpec,
+    tweak: impl FnOnce(&mut World),
+    on_publish: impl Fn(&trippy_core::Round<'_>),
+) -> RunLog {
     vclock::enable(START_NS);
     let mut w = World::new(cfg.clone(), spec.clone());
     tweak(&mut w);
@@ -135,6 +175,7 @@ pub fn run_trace_with(cfg: &TraceCfg, spec: &WorldSpec, tweak: impl FnOnce(&mut 
             // the tracer's own handler has already applied the round to its state
             let t = catch(|| summarize(&tracer.snapshot()));
             tables.borrow_mut().push(t);
+            on_publish(round);
         })
     });
     log.tables = tables.into_inner();
